@@ -130,6 +130,7 @@ class Result(object):
         self.class_examples = {}
         self.nontrivial = set()
         self.both_error = 0
+        self.sto_evaluations = 0
         self.samples = []
 
     def mismatch(self, case, source, query, expected, observed, what="answers", step=None):
@@ -148,8 +149,8 @@ class Result(object):
             self.class_examples[label] = (size, rec)
 
 
-def full_source(case):
-    src = to_source(case.program)
+def full_source(case, program=None):
+    src = to_source(case.program if program is None else program)
     for extra, ow in case.more:
         src += "%% --- consulted next with overwrite=%s\n" % ow + to_source(extra)
     return src
@@ -157,6 +158,7 @@ def full_source(case):
 
 def make_ref(case):
     ref = RefEngine()
+    ref.check_sto = True
     ref.consult(case.program)
     for extra, ow in case.more:
         ref.consult(extra, overwrite=ow)
@@ -176,11 +178,13 @@ def run_query_case(case, res):
     src = full_source(case)
     ref = make_ref(case)
     expected = []
+    sto = []
     for q in case.queries:
         try:
             expected.append(ref.answers(q, max_answers=MAX_ANSWERS, step_limit=STEP_LIMIT))
         except RefLimit:
             expected.append(None)
+        sto.append(bool(ref.sto))
     program = case.program
     if case.swap:
         # self check of the oracle: natives instead of facts give the same answers
@@ -198,7 +202,7 @@ def run_query_case(case, res):
                 except RefLimit:        # (natives resolve their arguments: cyclic terms)
                     continue
                 assert got == exp, "oracle self check failed: " + case.id
-        src = to_source(program) + "".join(
+        src = full_source(case, program) + "".join(
             "%% native %s/%d rows %s\n" % (n, a, "; ".join("(" + ",".join(term_to_source(t, True) for t in r) + ")"
                                                           for r in rows))
             for (n, a), rows in sorted(case.swap.items()))
@@ -219,11 +223,12 @@ def run_query_case(case, res):
         res.mismatch_count += max(0, nq - 1)      # every query of the case is lost
         res.classes[classify([], [exc_entry(e)], "consult")] += max(0, nq - 1)
         return
-    for q, exp in zip(case.queries, expected):
+    for q, exp, is_sto in zip(case.queries, expected, sto):
         if exp is None:
             res.skipped += 1
             continue
         res.evaluations += 1
+        res.sto_evaluations += is_sto
         obs = timed(real.answers, q, max_answers=MAX_ANSWERS)
         qs = goal_to_source(q)
         if exp or case.special:
@@ -231,7 +236,8 @@ def run_query_case(case, res):
         if exp and exp and is_exc(exp[-1]) and obs and is_exc(obs[-1]) and exp[:-1] == obs[:-1]:
             res.both_error += 1
         if not same(exp, obs):
-            res.mismatch(case, src, qs, exp, obs)
+            # a unification built a cyclic term on the way (ISO: undefined)
+            res.mismatch(case, src, qs, exp, obs, what="STO(cyclic term) answers" if is_sto else "answers")
         if len(res.samples) < 4 and exp and not case.id.endswith("-0"):
             if all(s["id"] != case.id for s in res.samples):
                 res.samples.append({"id": case.id, "source": src, "query": qs,
@@ -376,6 +382,7 @@ def run(family, seed, count, exhaustive=False, max_depth=None, limit=None):
         "samples": res.samples,
         "skipped": res.skipped,
         "both_error": res.both_error,
+        "sto_evaluations": res.sto_evaluations,
         "seconds": round(dt, 2),
         "evaluations_per_second": round(res.evaluations / dt, 1) if dt > 0 else None,
         "engine": real_engine.YLD_FILE,
